@@ -874,7 +874,7 @@ def run(ctx: Ctx):
     ncorpus = len(cases)
     cases += systematic_cases()
     nq = 10 if not ctx.thorough else 14
-    for _ in range(ctx.budget(2000, 30000)):
+    for _ in range(ctx.budget(2000, 26000)):
         cases.append(gen_case(rng, rng.randint(3, nq)))
     for i, case in enumerate(cases):
         nontrivial = any(source_intervals(s, case["kind"]) for s in case["source"]) and any(
